@@ -303,8 +303,99 @@ def shard(ctx):
                 r.fail("C12:c:" + panic_sig(rep2["panic"]), "edit at row %s panics the checker: %s" % (row, rep2["panic"].get("msg")), case)
         # other edit kinds with a known family
         other_edits(w, r, rng, prog, src, spans)
+        builtin_arg_edits(w, r, rng, src)
+    # ---- (d) where the SUB / FUNCTION texts sit does not matter; labels belong to the module or to one procedure ----
+    for _ in range(m):
+        placement_cases(w, r, rng)
     w.close()
     return r
+
+
+BUILTIN_CALLS = [
+    # (template with {0} {1} {2}, types of the arguments, type of the result)
+    ("MID$({0}, {1}, {2})", "$%%", "$"), ("MID$({0}, {1})", "$%", "$"), ("LEFT$({0}, {1})", "$%", "$"), ("RIGHT$({0}, {1})", "$%", "$"),
+    ("INSTR({0}, {1}, {2})", "%$$", "%"), ("INSTR({0}, {1})", "$$", "%"), ("CHR$({0})", "%", "$"), ("STR$({0})", "%", "$"), ("VAL({0})", "$", "%"),
+    ("UCASE$({0})", "$", "$"), ("LCASE$({0})", "$", "$"), ("LTRIM$({0})", "$", "$"), ("RTRIM$({0})", "$", "$"), ("SPACE$({0})", "%", "$"),
+    ("STRING$({0}, {1})", "%%", "$"), ("MKD$({0})", "%", "$"), ("CVD({0})", "$", "%"),
+]
+
+
+def builtin_arg_edits(w, r, rng, base_src):
+    """Every argument position of the built-in functions: the right type is accepted, the other type is rejected."""
+    tmpl, types, rt = rng.choice(BUILTIN_CALLS)
+    good = ['"abcdef"' if t == "$" else str(rng.choice([1, 2, 3])) for t in types]
+    target = "ZBT$" if rt == "$" else "ZBN#"
+    ok_src = "%s = %s\n" % (target, tmpl.format(*good)) + base_src
+    rep = w.run(ok_src, stop="lint")
+    v = verdict(rep)
+    if v[0] in ("died", "watchdog", "harness_error"):
+        r.inconc(v[0])
+        return
+    r.evaluations += 1
+    r.count("builtin_call_well_typed", group="parts")
+    if v != ("accepted",):
+        r.fail("C12:c:builtin_rejected:%s" % tmpl.split("(")[0], "well-typed %s is rejected: %s" % (tmpl.format(*good), v), {"part": "c", "src": ok_src})
+        return
+    for k, t in enumerate(types):
+        bad = list(good)
+        bad[k] = "7" if t == "$" else '"oops"'
+        esrc = "%s = %s\n" % (target, tmpl.format(*bad)) + base_src
+        rep = w.run(esrc, stop="lint")
+        v = verdict(rep)
+        if v[0] in ("died", "watchdog", "harness_error"):
+            r.inconc(v[0])
+            continue
+        r.evaluations += 1
+        r.count("builtin_argument_type_edits", group="parts")
+        r.nontrivial.add(h64("bi" + tmpl + str(k)))
+        case = {"part": "c", "src": esrc, "expected_row": 1, "edit": "builtin_arg"}
+        name = tmpl.split("(")[0]
+        if v[0] == "accepted":
+            r.fail("C12:c:builtin_arg_accepted:%s:%d" % (name, k), "%s with argument %d of the wrong type is accepted" % (tmpl.format(*bad), k + 1), case)
+        elif v[0] == "lint_error" and (v[1] not in TYPE_FAMILY and v[1] not in ARG_FAMILY):
+            r.fail("C12:c:builtin_arg_wrong_family:%s" % v[1], "%s rejected with %s" % (tmpl.format(*bad), v[1]), case)
+        elif v[0] not in ("lint_error",):
+            r.fail("C12:c:builtin_arg:%s" % v[0], "%s: %s" % (tmpl.format(*bad), v), case)
+
+
+def placement_cases(w, r, rng):
+    from ..gen import GenJumps
+    g = GenJumps(rng)
+    prog = g.program()
+    src_a, _ = emit_with_procs(prog)
+    src_b, _ = emit_with_procs(prog, procs_first=True)
+    va = verdict(w.run(src_a, stop="lint"))
+    vb = verdict(w.run(src_b, stop="lint"))
+    if va[0] in ("died", "watchdog", "harness_error") or vb[0] in ("died", "watchdog", "harness_error"):
+        r.inconc(va[0] + "/" + vb[0])
+        return
+    r.evaluations += 1
+    r.count("procedure_placement", group="parts")
+    r.nontrivial.add(h64("place" + src_b))
+    if va != vb:
+        r.fail("C12:d:placement:%s->%s" % (":".join(map(str, va)), ":".join(map(str, vb))),
+               "moving the SUB / FUNCTION definitions in front of the module-level code changed the verdict from %s to %s | program (procedures first):\n%s" % (va, vb, src_b[:1500]),
+               {"part": "d", "src": src_a, "rsrc": src_b})
+        return
+    labels = [s["name"] for s in prog["main"] if s["k"] == "label"]
+    if not labels or not prog["procs"]:
+        return
+    # a jump from inside a procedure to a label of the module must be rejected wherever the texts sit
+    p2 = copy.deepcopy(prog)
+    p2["procs"][0]["body"].insert(0, {"k": "goto", "label": rng.choice(labels), "id": None})
+    for first in (False, True):
+        esrc, _ = emit_with_procs(p2, procs_first=first)
+        v = verdict(w.run(esrc, stop="lint"))
+        if v[0] in ("died", "watchdog", "harness_error"):
+            r.inconc(v[0])
+            continue
+        r.evaluations += 1
+        r.count("jump_from_procedure_to_module_label", group="parts")
+        if v[0] == "accepted":
+            r.fail("C12:d:foreign_label_accepted:%s" % ("procs_first" if first else "procs_last"),
+                   "GOTO from inside %s to a label of the main module is accepted | program:\n%s" % (p2["procs"][0]["name"], esrc[:1500]), {"part": "d", "src": esrc})
+        elif v != ("lint_error", "LabelNotDefined"):
+            r.fail("C12:d:foreign_label:%s" % ":".join(map(str, v)), "GOTO from inside a procedure to a module label: %s" % (v,), {"part": "d", "src": esrc})
 
 
 def mark_row(src, row):
